@@ -109,6 +109,16 @@ CLAIMED = {
         "of full generations for paths written with two contents.",
    note="Trusted: Coq kernel+vm_compute; pathlib; the in-process write log. Known findings C15-K1..K4.",
    technique="Coq proof (injectivity / refutation witnesses of file-name functions, single-writer lemma) + vm_compute correspondence on marshalling attributes", design="7/C15"),
+ 'C12': dict(
+   text="Coq theorems for ALL strings: the generated /** ... */ block produced by comment_filter contains the terminator exactly once, "
+        "at its end (neutralisation lemma + concatenation algebra of the terminator scanner); line-comment generators prefix every line; "
+        "the escaped @deprecated message is a well-formed C string-literal body (the three sequential replaces equal one per-character "
+        "substitution). Tied to /repo by running the real comment filter of six generators and the real deprecated() helpers on "
+        "adversarial strings (vm_compute comparison) and by a non-interference oracle on real generations: comments added/changed and "
+        "@deprecated messages changed on every commentable construct, code compared after removing comments and message literals.",
+   note="Trusted: Coq kernel+vm_compute; mistune and the Markdown renderers (arbitrary string in the theorems); the harness' lexical "
+        "stripper. Two defects repaired (c68de42 terminator, 02a4a46 backslash).",
+   technique="Coq proof over all strings (comment filter, literal escaping) + vm_compute correspondence + metamorphic non-interference runs", design="7/C12"),
 }
 PENDING_REASON = "check not built yet in this session (work in progress; see DESIGN.md section 10 build order)"
 HOOK_COMMITS = []
